@@ -28,6 +28,10 @@ NOTES = {
     "C09_4": ("only no-failing-input-found at first run (source-fact obligation on the order of statements in PPFlow.GetCertificateBuildParams)",
               "C09 harness: every third case with two or more L2 blocks starts from a certificate database that holds an InError "
               "certificate of height 0 built against the oldest recorded L1 info root (the flow then builds its replacement)"),
+    "C19_3": ("only no-failing-input-found at first run (the encoder returned a negative big.Int, which the glue could not transcribe)",
+              "props/c19.py transcribes a negative value as 2^300 + |v| (equal to no expected value); harness/c19 recovers from panics per case"),
+    "C19_4": ("only no-failing-input-found at first run (harness crashed on the wire message without a global index)",
+              "harness/c19 observes a missing global index as an empty value instead of dereferencing it"),
     "C16_4": ("caught at first run by C16; MISSED by the GER-store part of C04",
               "C04 GER-store part: every query is now also asked right before each reorg"),
 }
